@@ -53,9 +53,15 @@ Definition model_assert (e : entry) (v : vcfg) (t : keytable) (cl : clienttable)
       end
   end.
 
+(* every entry point reaches the (nil) subject check through VerifyJWTAssertion; the
+   drivers call the functions / handlers without a recovering server in between *)
+Definition panics (v : vcfg) (t : keytable) (now : Z) (tok : token claims) : bool :=
+  match verify_assertion sym_verify v t now tok with Err EPanicked => true | _ => false end.
+
 Definition model (i : input) : observed :=
   match i with
-  | IAssert e _ v t cl t0 _ tok => OAssert (model_assert e v t cl t0 tok)
+  | IAssert e _ v t cl t0 _ tok =>
+      if panics v t t0 tok then OPanic else OAssert (model_assert e v t cl t0 tok)
   | IRequest true sup t iss outer tok =>
       OAuthz (authorize_until_validation sym_verify sup t iss outer tok)
   | IRequest false _ t iss outer tok =>
@@ -80,7 +86,10 @@ Definition assertion_conditions (v : vcfg) (t : keytable) (t0 t1 : Z) (d : sigde
   && negb (Z.eqb (c_exp c) 0) && Z.ltb (t0 + v_offset v) (c_exp c * second)
   && negb (Z.eqb (c_iat c) 0) && Z.leb (c_iat c * second) (round_s (t1 + v_offset v))
   && (Z.eqb (v_max_age v) 0 || Z.leb (round_s (t0 - v_max_age v)) (c_iat c * second))
-  && match v_sub v with SubIsIssuer => String.eqb (c_sub c) (c_iss c) | SubAny => true end.
+  && match v_sub v with
+     | SubAny | SubOnly _ => true       (* a caller-supplied, non-nil check decides *)
+     | SubIsIssuer | SubNil => String.eqb (c_sub c) (c_iss c)   (* the default; no check at all is not a custom check *)
+     end.
 
 Definition is_private_key_jwt (cl : clienttable) (id : string) : bool :=
   match lookup_client cl id with Some m => String.eqb m private_key_jwt | None => false end.
@@ -95,6 +104,7 @@ Definition is_private_key_jwt (cl : clienttable) (id : string) : bool :=
 Definition must_accept (e : entry) (v : vcfg) (t : keytable) (cl : clienttable) (t0 t1 : Z)
     (h : hcall) (d : sigdesc) (c : claims) : bool :=
   sd_wf d && signed_by_named_client t (c_iss c) d
+  && match v_sub v with SubIsIssuer | SubAny => true | _ => false end
   && Z.leb 0 (v_offset v)
   && Z.leb second (h_t0 h) && Z.leb (h_t0 h) (h_t1 h) && Z.leb (h_t1 h) t0
   && (Z.eqb (v_max_age v) 0 || Z.leb (t1 - h_t0 h + second + half_second) (v_max_age v))
@@ -166,14 +176,20 @@ Definition request_legit (t : keytable) (issuer : string) (outer : authreq) (d :
   && (String.eqb (ar_response_type (ro_req ro)) ""
       || String.eqb (ar_response_type (ro_req ro)) (ar_response_type outer)).
 
-Definition from_s (o i a : string) : bool := String.eqb a o || String.eqb a i.
-Definition from_l (o i a : list string) : bool := strs_eqb a o || strs_eqb a i.
-Definition from_o (o i a : option N) : bool := option_eqb N.eqb a o || option_eqb N.eqb a i.
+(* a member that is PRESENT in the object (non-empty string / list after decoding, max_age
+   given - also max_age = 0) takes the object's value; an absent one keeps the plain value *)
+Definition from_s (o i a : string) : bool := if nonempty i then String.eqb a i else String.eqb a o.
+Definition from_l (o i a : list string) : bool :=
+  match i with [] => strs_eqb a o | _ => strs_eqb a i end.
+Definition from_o (o i a : option N) : bool :=
+  match i with Some _ => option_eqb N.eqb a i | None => option_eqb N.eqb a o end.
+(* scope: the object's list or the plain one *)
+Definition from_either (o i a : list string) : bool := strs_eqb a o || strs_eqb a i.
 
-(* every parameter afterwards is the plain one or the object's; client_id and
-   response_type stay the plain ones *)
+(* every parameter afterwards is the object's value where the object carries it, the plain
+   one otherwise; client_id and response_type stay the plain ones *)
 Definition fields_from (o i a : authreq) : bool :=
-  from_l (ar_scopes o) (ar_scopes i) (ar_scopes a)
+  from_either (ar_scopes o) (ar_scopes i) (ar_scopes a)
   && String.eqb (ar_response_type a) (ar_response_type o)
   && String.eqb (ar_client_id a) (ar_client_id o)
   && from_s (ar_redirect_uri o) (ar_redirect_uri i) (ar_redirect_uri a)
@@ -200,6 +216,10 @@ Definition override_ok (t : keytable) (issuer : string) (outer : authreq) (tok :
 Definition spec (i : input) (o : observed) : bool :=
   match i, o with
   | IAssert e helper v t cl t0 t1 tok, OAssert r => spec_assert e helper v t cl t0 t1 tok r
+  | IAssert _ _ v _ _ _ _ _, OPanic =>
+      (* a call that does not return accepts nothing; it is tolerated only for a verifier
+         that was configured without any subject check (nil) *)
+      match v_sub v with SubNil => true | _ => false end
   | IRequest false _ t iss outer tok, OReq e after cleared =>
       match e with
       | Some _ => authreq_eqb after outer && negb cleared   (* rejected before anything is overridden *)
@@ -217,7 +237,7 @@ Definition err_nat (e : err) : nat :=
   match e with
   | EOther => 1 | EParse => 2 | EAud => 3 | EExpired => 4 | EIatMissing => 5 | EIatFuture => 6
   | EIatOld => 7 | EAlg => 8 | ESig => 9 | ENoClient => 10 | EMethod => 11 | ENoCred => 12
-  | EInvalidRequest => 13
+  | EInvalidRequest => 13 | EPanicked => 14
   end.
 Definition err_eqb (a b : err) : bool := Nat.eqb (err_nat a) (err_nat b).
 
